@@ -54,6 +54,7 @@ fn with_text<T: Text + ?Sized, R>(b: &Built, t: &T, f: impl FnOnce(&str) -> R) -
         let sym = t.as_sym().expect("symbolic text");
         let ph = placeholder(t);
         let _g = symx_api::install_session(sym, b.wrap.clone());
+        symx_api::set_placeholder(&ph);
         f(&ph)
     }
 }
